@@ -337,12 +337,20 @@ OP(bn_mxp_monty) { W(bn_mxp_monty(R[0], B[0], B[3], B[2])); out_bn(R[0]); }
 OP(bn_mxp_dig) { W(bn_mxp_dig(R[0], B[0], 65537, B[2])); out_bn(R[0]); }
 OP(bn_mxp_sim) { W(bn_mxp_sim(R[0], B[0], B[3], B[1], B[5], B[2])); out_bn(R[0]); }
 OP(bn_srt) { W(bn_srt(R[0], B[0])); out_bn(R[0]); }
-OP(bn_gcd_basic) { W(bn_gcd_basic(R[0], B[0], B[1])); out_bn(R[0]); }
-OP(bn_gcd_lehme) { W(bn_gcd_lehme(R[0], B[0], B[1])); out_bn(R[0]); }
-OP(bn_gcd_binar) { W(bn_gcd_binar(R[0], B[0], B[1])); out_bn(R[0]); }
-OP(bn_gcd_ext_basic) { W(bn_gcd_ext_basic(R[0], R[1], R[2], B[0], B[1])); out_bn(R[0]); out_bn(R[1]); out_bn(R[2]); }
-OP(bn_gcd_ext_lehme) { W(bn_gcd_ext_lehme(R[0], R[1], R[2], B[0], B[1])); out_bn(R[0]); out_bn(R[1]); out_bn(R[2]); }
-OP(bn_gcd_ext_binar) { W(bn_gcd_ext_binar(R[0], R[1], R[2], B[0], B[1])); out_bn(R[0]); out_bn(R[1]); out_bn(R[2]); }
+/* the second operand of a seeded shorter length (0, 1/4, 1/2, 3/4 of the digits cut off): operands of the same
+ * length make every quotient a single small digit */
+static void shorter_second(void) {
+	size_t bits = bn_bits(B[1]);
+	bn_rsh(R[3], B[1], (size_t)((B[6]->dp[0] >> 3) % 4) * bits / 4);
+	if (bn_is_zero(R[3])) bn_set_dig(R[3], 6);
+}
+OP(bn_gcd_basic) { shorter_second(); W(bn_gcd_basic(R[0], B[0], R[3])); out_bn(R[0]); }
+OP(bn_gcd_lehme) { shorter_second(); W(bn_gcd_lehme(R[0], B[0], R[3])); out_bn(R[0]); }
+OP(bn_gcd_binar) { shorter_second(); W(bn_gcd_binar(R[0], B[0], R[3])); out_bn(R[0]); }
+OP(bn_gcd_ext_basic) { shorter_second(); W(bn_gcd_ext_basic(R[0], R[1], R[2], B[0], R[3])); out_bn(R[0]); out_bn(R[1]); out_bn(R[2]); }
+OP(bn_gcd_ext_lehme) { shorter_second(); W(bn_gcd_ext_lehme(R[0], R[1], R[2], B[0], R[3])); out_bn(R[0]); out_bn(R[1]); out_bn(R[2]); }
+OP(bn_gcd_ext_binar) { shorter_second(); W(bn_gcd_ext_binar(R[0], R[1], R[2], B[0], R[3])); out_bn(R[0]); out_bn(R[1]); out_bn(R[2]); }
+OP(bn_gcd_swapped) { shorter_second(); W(bn_gcd_lehme(R[0], R[3], B[0]); bn_gcd_basic(R[1], R[3], B[0])); out_bn(R[0]); out_bn(R[1]); }
 OP(bn_gcd_ext_mid) { W(bn_gcd_ext_mid(R[0], R[1], R[2], R[3], B[0], B[2])); out_bn(R[0]); out_bn(R[1]); }
 OP(bn_lcm) { W(bn_lcm(R[0], B[0], B[1])); out_bn(R[0]); }
 OP(bn_smb_leg) { int r = 0; W(r = bn_smb_leg(B[0], B[2])); out_int(r); }
@@ -1010,7 +1018,7 @@ static const op_t ops[] = {
 	E(bn_grow_dbl, 0), E(bn_grow_sub_neg, 0), E(bn_grow_lsh_inplace, 0), E(bn_grow_add_inplace, 0), E(bn_cap_set_bit, 0), E(bn_cap_rand, 0), E(bn_cap_read_bin, 0), E(bn_cap_copy_lsh, 0), E(bn_div_rem, 0), E(bn_div, 0), E(bn_mod_basic, 0),
 	E(bn_mod_barrt, 0), E(bn_mod_monty, 0), E(bn_mod_inv, 0), E(bn_mxp_basic, 0), E(bn_mxp_slide, 0),
 	E(bn_mxp_monty, 0), E(bn_mxp_dig, 0), E(bn_mxp_sim, 0), E(bn_srt, 0), E(bn_gcd_basic, 0), E(bn_gcd_lehme, 0),
-	E(bn_gcd_binar, 0), E(bn_gcd_ext_basic, 0), E(bn_gcd_ext_lehme, 0), E(bn_gcd_ext_binar, 0), E(bn_gcd_ext_mid, 0),
+	E(bn_gcd_binar, 0), E(bn_gcd_ext_basic, 0), E(bn_gcd_ext_lehme, 0), E(bn_gcd_ext_binar, 0), E(bn_gcd_ext_mid, 0), E(bn_gcd_swapped, 0),
 	E(bn_lcm, 0), E(bn_smb_leg, 0), E(bn_smb_jac, 0), E(bn_is_prime, 0), E(bn_is_prime_solov, 0),
 	E(bn_gen_prime_small, 0), E(bn_factor, 0), E(bn_rec_naf, 0), E(bn_rec_win, 0), E(bn_rec_slw, 0), E(bn_rec_reg, 0),
 	E(bn_rec_jsf, 0), E(bn_rec_glv, 0), E(bn_read_str, 0), E(bn_write_str, 0), E(bn_read_bin, 0), E(bn_lag, 0),
